@@ -309,6 +309,14 @@ class World:
             if kind.endswith("raise"):
                 raise RuntimeError(f"completion of {name}")
 
+        if "falsy" in kind:
+            class Collector(list):  # type: ignore[type-arg]
+                """a callable object whose truth value is False while it has collected nothing"""
+
+                def __call__(self, metrics: Any) -> None:
+                    cb(metrics)
+
+            return Collector()
         return cb
 
     def idle(self, timeout: float | None) -> bool:
